@@ -140,22 +140,38 @@ Fixpoint keq (a b : key) : bool :=
   | _, _ => false
   end.
 
+(* Who owns the storage of a member name (lh_entry.k_is_constant): an entry inserted with
+   JSON_C_OBJECT_ADD_CONSTANT_KEY keeps the caller's pointer and the library never frees it;
+   every other entry holds a strdup'ed copy that is freed together with the entry (delete,
+   destruction of the object) and kept by a replace.  The flag is part of the entry: such an
+   entry is written with the marker [-1] (not a byte) in front of its name.  A table resize
+   re-inserts every entry with its own flag. *)
+Definition kmark (k : key) : key := (-1) :: k.
+Definition kstrip (k : key) : key :=
+  match k with x :: t => if x =? -1 then t else k | [] => k end.
+Definition kconst (k : key) : bool :=
+  match k with x :: _ => x =? -1 | [] => false end.
+
 Fixpoint assoc_find (k : key) (cs : list (key * option id)) : option (option id) :=
   match cs with
   | [] => None
-  | (k', v) :: t => if keq k' k then Some v else assoc_find k t
+  | (k', v) :: t => if keq (kstrip k') k then Some v else assoc_find k t
   end.
-(* lh_entry_set_val on the existing entry: the key keeps its position *)
+(* lh_entry_set_val on the existing entry: the key (and its flag) keeps its position *)
 Fixpoint assoc_set (k : key) (v : option id) (cs : list (key * option id)) : list (key * option id) :=
   match cs with
   | [] => []
-  | (k', v') :: t => if keq k' k then (k', v) :: t else (k', v') :: assoc_set k v t
+  | (k', v') :: t => if keq (kstrip k') k then (k', v) :: t else (k', v') :: assoc_set k v t
   end.
 Fixpoint assoc_del (k : key) (cs : list (key * option id)) : list (key * option id) :=
   match cs with
   | [] => []
-  | (k', v') :: t => if keq k' k then t else (k', v') :: assoc_del k t
+  | (k', v') :: t => if keq (kstrip k') k then t else (k', v') :: assoc_del k t
   end.
+
+(* key copies the library owns in one member list / in the whole heap *)
+Fixpoint key_copies (cs : list (key * option id)) : Z :=
+  match cs with [] => 0 | (k, _) :: t => (if kconst k then 0 else 1) + key_copies t end.
 
 Definition is_kind (n : node) (k : kind) : bool :=
   match nkind n, k with
@@ -165,22 +181,28 @@ Definition is_kind (n : node) (k : kind) : bool :=
 
 Definition opt_is (v : option id) (p : id) : bool := match v with Some c => c =? p | None => false end.
 
-(* json_object_object_add_ex(jso, key, val, 0) *)
-Definition obj_add (s : state) (p : id) (k : key) (v : option id) : res :=
+(* json_object_object_add_ex(jso, key, val, opts); [is_new] = JSON_C_OBJECT_ADD_KEY_IS_NEW (the
+   lookup is skipped: the caller promises the key is absent), [const] =
+   JSON_C_OBJECT_ADD_CONSTANT_KEY (only looked at when a new entry is made) *)
+Definition obj_add_ex (s : state) (p : id) (k : key) (v : option id) (is_new const : bool) : res :=
   match hfind (heap_of s) p with
   | None => RUB
   | Some n =>
       if negb (is_kind n KObject) then RUB                  (* assert(type == object) *)
       else if opt_is v p then ROk s (-1) []                 (* if (jso == val) return -1 *)
       else
-        match assoc_find k (children n) with
+        match (if is_new then None else assoc_find k (children n)) with
         | None =>
-            ROk (mkSt (hset (heap_of s) p (set_children n (children n ++ [(k, v)]))) (nxt s)) 0 []
+            ROk (mkSt (hset (heap_of s) p
+                         (set_children n (children n ++ [(if const then kmark k else k, v)]))) (nxt s)) 0 []
         | Some old =>
             lift_l (nxt s) 0
               (release_list (hset (heap_of s) p (set_children n (assoc_set k v (children n)))) (opt_ids old))
         end
   end.
+
+(* json_object_object_add *)
+Definition obj_add (s : state) (p : id) (k : key) (v : option id) : res := obj_add_ex s p k v false false.
 
 (* json_object_object_del: void; a missing key is a no-op *)
 Definition obj_del (s : state) (p : id) (k : key) : res :=
@@ -301,10 +323,10 @@ Section CopyKids.
   Fixpoint copy_kids (cs : list (key * option id)) (s : state) : kres :=
     match cs with
     | [] => KOk s
-    | (k, None) :: t => copy_kids t (attach s me k None)
+    | (k, None) :: t => copy_kids t (attach s me (kstrip k) None)   (* object_add copies the name *)
     | (k, Some c) :: t =>
         match C s c with
-        | COk s' c' => copy_kids t (attach s' me k (Some c'))
+        | COk s' c' => copy_kids t (attach s' me (kstrip k) (Some c'))
         | CFail => KFail
         | CUB => KUB
         | CFuel => KFuel
@@ -448,6 +470,7 @@ Inductive op :=
 | OGet (i : id)
 | OPut (i : id)
 | OObjAdd (p : id) (k : key) (v : option id)
+| OObjAddEx (p : id) (k : key) (v : option id) (is_new const : bool)
 | OObjDel (p : id) (k : key)
 | OArrAdd (p : id) (v : option id)
 | OArrPut (p : id) (idx : Z) (v : option id)
@@ -464,6 +487,7 @@ Definition step (s : state) (o : op) : res :=
   | OGet i => get_node s i
   | OPut i => put_node s i
   | OObjAdd p k v => obj_add s p k v
+  | OObjAddEx p k v nw cst => obj_add_ex s p k v nw cst
   | OObjDel p k => obj_del s p k
   | OArrAdd p v => arr_add s p v
   | OArrPut p idx v => arr_put s p idx v
@@ -487,7 +511,7 @@ Definition ledger_step (h : heap) (L : ledger) (o : op) (ret : Z) : ledger :=
   | ONew _ => upd L ret 1                                   (* constructors give one reference *)
   | OGet i => upd L i 1
   | OPut i => upd L i (-1)
-  | OObjAdd _ _ v | OArrAdd _ v | OArrPut _ _ v | OArrIns _ _ v =>
+  | OObjAdd _ _ v | OObjAddEx _ _ v _ _ | OArrAdd _ v | OArrPut _ _ v | OArrIns _ _ v =>
       if ret =? 0 then upd_opt L v (-1) else L              (* transferred on success only *)
   | OCopy _ _ => if 0 <=? ret then upd L ret 1 else L
   | OPtrSet r path v =>
@@ -525,6 +549,11 @@ Definition admissible (s : state) (L : ledger) (o : op) : Prop :=
   | OObjAdd p _ v =>
       live_kind h p KObject /\
       (v = Some p (* refused by the library: -1, nothing changes *) \/ transfer_ok h L p v)
+  | OObjAddEx p k v nw _ =>
+      live_kind h p KObject /\
+      (v = Some p \/ transfer_ok h L p v) /\
+      (* JSON_C_OBJECT_ADD_KEY_IS_NEW is a promise that the key is not there yet *)
+      (nw = true -> forall n, hfind h p = Some n -> assoc_find k (children n) = None)
   | OObjDel p _ => live_kind h p KObject
   | OArrAdd p v => live_kind h p KArray /\ transfer_ok h L p v
   | OArrPut p idx v | OArrIns p idx v => live_kind h p KArray /\ size_t idx /\ transfer_ok h L p v
